@@ -265,7 +265,12 @@ def main():
     ap.add_argument("--replay")
     ap.add_argument("--setup", action="store_true")
     a = ap.parse_args()
-    seed = int(os.environ.get("VERIF_SEED", "0") or 0)
+    raw_seed = os.environ.get("VERIF_SEED", "0") or "0"
+    try:
+        seed = int(raw_seed)
+    except ValueError:
+        import zlib
+        seed = zlib.crc32(raw_seed.encode("utf-8", "replace"))
     sys.path.insert(0, os.path.join(VERIF, "tools"))
     if a.setup:
         import extract
